@@ -7,7 +7,6 @@ package c11
 // produced it.
 
 import (
-	"context"
 	"encoding/json"
 	"fmt"
 	"os"
@@ -34,6 +33,7 @@ type StressPart struct {
 	Spin       int    `json:"spin"`
 	LoadSpin   int    `json:"load_spin"`
 	CancelSpin int    `json:"cancel_spin,omitempty"`
+	WriteFail  bool   `json:"write_fail,omitempty"`
 }
 
 // StressCase is a history of Rounds rounds of the same concurrent requests on one resolver
@@ -42,6 +42,8 @@ type StressCase struct {
 	Layer      string       `json:"layer"`
 	OpType     string       `json:"op_type"`
 	HardCancel bool         `json:"hard_cancel,omitempty"`
+	MaxConc    int          `json:"max_conc,omitempty"`
+	Transport  string       `json:"transport,omitempty"`
 	Keys       []Key        `json:"keys"`
 	Parts      []StressPart `json:"parts"`
 	Rounds     int          `json:"rounds"`
@@ -52,6 +54,10 @@ func genStress(t *rapid.T) StressCase {
 	c.Layer = rapid.SampledFrom([]string{layerInbound, layerInbound, layerSubgraph, layerBoth, layerBoth}).Draw(t, "layer")
 	c.OpType = rapid.SampledFrom([]string{"query", "query", "query", "query", "query", "query", "query", "mutation", "subscription"}).Draw(t, "optype")
 	c.HardCancel = rapid.IntRange(0, 3).Draw(t, "hardcancel") == 0
+	c.MaxConc = rapid.SampledFrom([]int{0, 0, 0, 0, 0, 1, 2}).Draw(t, "maxconc")
+	if rapid.IntRange(0, 2).Draw(t, "opaque") == 0 {
+		c.Transport = "opaque"
+	}
 	c.Keys = genKeys(t)
 	n := rapid.IntRange(2, 6).Draw(t, "nparts")
 	for i := 0; i < n; i++ {
@@ -62,10 +68,11 @@ func genStress(t *rapid.T) StressCase {
 		if c.Layer != layerInbound {
 			p.Alt = rapid.Bool().Draw(t, "alt")
 		}
-		p.Script = rapid.SampledFrom([]string{scNormal, scNormal, scNormal, scNormal, scNormal, scCancel, scCancel, scFailLoad, scFailHard}).Draw(t, "script")
+		p.Script = rapid.SampledFrom([]string{scNormal, scNormal, scNormal, scNormal, scNormal, scCancel, scCancel, scDeadline, scFailLoad, scFailHard}).Draw(t, "script")
+		p.WriteFail = rapid.IntRange(0, 5).Draw(t, "writefail") == 0
 		p.Spin = rapid.SampledFrom([]int{0, 0, 0, 1, 2, 5, 20}).Draw(t, "spin")
 		p.LoadSpin = rapid.SampledFrom([]int{0, 1, 5, 20, 50, 100}).Draw(t, "loadspin")
-		if p.Script == scCancel {
+		if p.Script == scCancel || p.Script == scDeadline {
 			p.CancelSpin = rapid.SampledFrom([]int{0, 1, 5, 20, 50, 100, 200}).Draw(t, "cancelspin")
 		}
 		c.Parts = append(c.Parts, p)
@@ -75,9 +82,9 @@ func genStress(t *rapid.T) StressCase {
 }
 
 func (c StressCase) asCase() Case {
-	cc := Case{Layer: c.Layer, OpType: c.OpType, HardCancel: c.HardCancel, Keys: c.Keys}
+	cc := Case{Layer: c.Layer, OpType: c.OpType, HardCancel: c.HardCancel, MaxConc: c.MaxConc, Transport: c.Transport, Keys: c.Keys}
 	for _, p := range c.Parts {
-		cc.Parts = append(cc.Parts, Participant{Key: p.Key, Alt: p.Alt, Script: p.Script})
+		cc.Parts = append(cc.Parts, Participant{Key: p.Key, Alt: p.Alt, Script: p.Script, WriteFail: p.WriteFail})
 	}
 	return cc
 }
@@ -107,6 +114,7 @@ func runStress(sc StressCase, o rec, opts runOpts) (v pbt.Verdict, hist string) 
 	}
 	o.label("stress:layer:%s", c.Layer)
 	o.label("stress:optype:%s", c.OpType)
+	o.label("stress:maxconc:%d", c.MaxConc)
 	for _, p := range c.Parts {
 		k := c.Keys[p.Key]
 		if ok := outAlone(c.Layer, c.OpType, k, p.Alt, scNormal); ok.Out != expectOK(k, p.Alt) || ok.err != nil {
@@ -114,7 +122,7 @@ func runStress(sc StressCase, o rec, opts runOpts) (v pbt.Verdict, hist string) 
 		}
 	}
 	shares := c.OpType == "query"
-	rg := acquireRig()
+	rg := acquireRig(c.MaxConc)
 	before := goroutineSet()
 	var log []string
 	logf := func(f string, a ...any) { log = append(log, fmt.Sprintf(f, a...)) }
@@ -132,13 +140,13 @@ func runStress(sc StressCase, o rec, opts runOpts) (v pbt.Verdict, hist string) 
 		var wg sync.WaitGroup
 		for i, sp := range sc.Parts {
 			k := c.Keys[sp.Key]
-			ctx, cancel := context.WithCancel(context.Background())
+			ctx, cancel := requestContext(sp.Script)
 			p := &pstate{id: i, spec: c.Parts[i], key: k, ikey: fmt.Sprintf("%d/%s", clientOpID(k.Op, sp.Alt), k), ctx: ctx, cancel: cancel,
 				want: map[string]bool{}, arrived: map[string]bool{}, started: true}
-			p.w = &who{pid: i, script: sp.Script, hardCancel: c.HardCancel, p: p, s: s, loads: s.loads, spin: spinFn(sp.LoadSpin)}
-			p.wr = &pwriter{p: p, s: s}
+			p.w = &who{pid: i, script: sp.Script, hardCancel: c.HardCancel, opaque: c.Transport == "opaque", p: p, s: s, loads: s.loads, spin: spinFn(sp.LoadSpin)}
+			p.wr = &pwriter{p: p, s: s, fail: sp.WriteFail}
 			s.parts = append(s.parts, p)
-			doCancel := sp.Script == scCancel
+			doCancel := sp.Script == scCancel || sp.Script == scDeadline
 			if doCancel && shares && opts.steer18 {
 				// known class C11-*-leader-cancel-leak: who leads is not controlled here, so a
 				// participant that shares its key with another one is not cancelled
@@ -164,7 +172,8 @@ func runStress(sc StressCase, o rec, opts runOpts) (v pbt.Verdict, hist string) 
 						p.out.Panic = fmt.Sprint(v)
 						p.out.Stack = string(debug.Stack())
 					}
-					p.out.Out = string(p.wr.out)
+					p.out.Out = string(p.wr.attempt)
+					p.out.Delivered = string(p.wr.out)
 					s.mu.Lock()
 					p.finished = true
 					delete(s.byGID, gid)
